@@ -2,6 +2,7 @@
 from __future__ import annotations
 
 import ast
+from fractions import Fraction
 from typing import Dict, List, Optional, Set
 
 from .. import algebra as A
@@ -15,18 +16,23 @@ from . import common as C
 ID = 'C14'
 TECHNIQUE = ('origin/effect analysis (flow-sensitive may-alias with per-function summaries to a fixed point) of the '
              'model builders against their table and point parameters; dominance of the interpolation call by a sort '
-             'by Mach; abstract evaluation of the per-entry scaling to a rational identity')
+             'by Mach; abstract evaluation of the per-entry scaling to a rational identity; the interpolation search by '
+             'inductive invariants in a linear-constraint domain (Houdini inference, Fourier-Motzkin refutation) with '
+             'counterexamples from a finite ordering family')
 DECIDED = [
     'R1 DragModel.__init__, DragModelMultiBC and make_data_points have no effect on the drag table or the BC points '
     'passed in (no field store, no in-place sort/append) - display-unit rewrites of quantity arguments excepted',
     'R2 the interpolation consumes the points sorted by Mach (sort dominates the call, both coordinate lists come '
     'from the sorted sequence); every table entry becomes CD / (interp(BC)/bc) with the same bc that becomes the '
     'model BC, i.e. standard CD * model BC / model CD = interp(BC)',
-    'R3 linear_interpolation returns yp[0] at or below the first abscissa, yp[-1] at or above the last, and inside a '
-    'bracket xp[m] <= x < xp[m+1] the straight line through the two bracketing points',
+    'R3 linear_interpolation, for every list length and every query: each value appended is, under the facts that hold '
+    'where it is appended (branch conditions plus inductive loop invariants), yp[0] at or below the first abscissa, '
+    'yp[-1] at or above the last, a node\'s ordinate at the node, or the straight line through two adjacent nodes that '
+    'bracket the query; every index is in range - proved by Houdini-inferred invariants and Fourier-Motzkin refutation '
+    '(engine E); an unproved obligation becomes a violation only with a concrete counterexample from the finite '
+    'input family (which also exposes a search that never terminates or skips a query)',
 ]
-NOT_DECIDED = ['that linear_interpolation returns the clamped piecewise-linear value for every query (search-loop '
-               'correctness); the single-BC equivalence as numbers']
+NOT_DECIDED = ['termination of the search for lists longer than the finite family; the single-BC equivalence as numbers']
 
 PROTECTED = {'drag_table', 'bc_points'}
 ALLOWED_FIELDS = {'_defined_units'}
@@ -160,115 +166,133 @@ def run(prog: Program, rep, thorough: bool) -> None:
 
 
 def check_interpolation(prog: Program, rep, ev: Evaluator, rule: str) -> None:
-    """linear_interpolation: per query point, clamp below the first and above the last abscissa, and inside
-    use the straight line through the two bracketing points.  The search loop itself is not decided."""
+    """linear_interpolation decided for every query and every table length (engine E): each value appended to the
+    result is, under the facts that hold where it is appended (branch conditions plus inductive loop invariants),
+    the first ordinate at or below the first abscissa, the last at or above the last, a node's ordinate at that node,
+    or the straight line through two adjacent nodes that bracket the query; every index is in range.  Abscissae are
+    assumed strictly ascending (distinct Mach values), both coordinate lists of one length."""
+    from .. import loopproof as L
     dm = prog.module(C.M_DM)
     li = prog.func(C.M_DM, 'linear_interpolation')
     rep.saw(li)
-    outer = [s_ for s_ in li.node.body if isinstance(s_, ast.For)]
-    if len(outer) != 1 or not isinstance(outer[0].target, ast.Name):
-        raise AnalysisError('linear_interpolation: expected one loop over the query points')
-    loop = outer[0]
     xname, xpn, ypn = li.positional[0], li.positional[1], li.positional[2]
-    if norm(loop.iter) != xname:
-        rep.fail(rule, dm.path, loop.lineno, li.qualname, 'queries', f'the loop runs over `{norm(loop.iter)}`, not over the query points')
+    rets = [n for n in ast.walk(li.node) if isinstance(n, ast.Return) and n.value is not None]
+    res = {r.value.id for r in rets if isinstance(r.value, ast.Name)}
+    if len(res) != 1 or len(rets) != sum(1 for r in rets if isinstance(r.value, ast.Name)):
+        rep.undecided(rule, li.where, 'linear_interpolation', 'the result is not one list built by append')
         return
-    res_names = [n.func.value.id for n in ast.walk(loop) if isinstance(n, ast.Call) and isinstance(n.func, ast.Attribute)
-                 and n.func.attr == 'append' and isinstance(n.func.value, ast.Name)]
-    if not res_names:
-        raise AnalysisError('linear_interpolation: no result list')
-    st = State()
-    out = ev.new_list(st, [])
-    st.env.update({loop.target.id: S('xi'), xpn: SymObj('xp'), ypn: SymObj('yp'), res_names[0]: out})
-    # loop-carried locals defined before the loop are unknowns here
-    for n in ast.walk(loop):
-        if isinstance(n, ast.Name) and n.id not in st.env and n.id not in ('len', 'range', 'enumerate', 'min', 'max', 'abs'):
-            st.env[n.id] = S(f'${n.id}')
+    res_name = next(iter(res))
+    roles = L.Roles(arrays={xpn: 'strict', ypn: None}, real_seqs=[xname], same_length=[(xpn, ypn)], min_len={xpn: 1},
+                    emit_lists=[res_name])
+    rep.assume('linear_interpolation: abscissae strictly ascending (distinct Mach values), len(xp) == len(yp) >= 1')
+
+    def line_through(ab, k):
+        one = L.Lin.const(1)
+        x0, x1 = A.sym(ab.pr.elem_term(xpn, k)), A.sym(ab.pr.elem_term(xpn, k + one))
+        y0, y1 = A.sym(ab.pr.elem_term(ypn, k)), A.sym(ab.pr.elem_term(ypn, k + one))
+        return x0, x1, y0, y1
+
+    def goal(ab, st, tag, v, node):
+        if tag == 'return':
+            return []
+        item = None
+        # the query of this iteration: the real variable bound by the loop over the query points
+        for n in ast.walk(li.node):
+            if isinstance(n, ast.For) and isinstance(n.iter, ast.Name) and n.iter.id == xname and isinstance(n.target, ast.Name):
+                item = n.target.id
+        q = st.env.get(item) if item else None
+        if q is None or q.lin is None or v is None or v.kind not in ('real', 'int') or ab.rf_of(v) is None:
+            return [(L.F_, f'line {node.lineno}: the appended value is not an arithmetic expression of the inputs')]
+        val = ab.rf_of(v)
+        qrf = ab.lin_rf(q.lin)
+        n_ = ab.len_of(xpn)
+        zero, one = L.Lin.const(0), L.Lin.const(1)
+        idx = []
+        for name in sorted(val.symbols()):
+            if name in ab.pr.elem and ab.pr.elem[name][0] == ypn:
+                idx.append(ab.pr.elem[name][1])
+        for j in idx:
+            if val.equals(A.sym(ab.pr.elem_term(ypn, j))):
+                xj = L.Lin.var(ab.pr.elem_term(xpn, j))
+                x0 = L.Lin.var(ab.pr.elem_term(xpn, zero))
+                xl = L.Lin.var(ab.pr.elem_term(xpn, n_.plus(-1)))
+                g = L.f_or(L.f_and(L.f_eq(j, zero), L.f_le(q.lin, x0)),
+                           L.f_and(L.f_eq(j, n_.plus(-1)), L.f_le(xl, q.lin)),
+                           L.f_eq(q.lin, xj))
+                return [(g, f'line {node.lineno}: yp[{j!r}] is appended only at or below the first abscissa (j = 0), at or '
+                            f'above the last (j = n-1), or at the node itself')]
+        for k in idx:
+            x0, x1, y0, y1 = line_through(ab, k)
+            if val.equals(y0 + (y1 - y0) / (x1 - x0) * (qrf - x0)):
+                lx0 = L.Lin.var(ab.pr.elem_term(xpn, k))
+                lx1 = L.Lin.var(ab.pr.elem_term(xpn, k + one))
+                g = L.f_and(L.f_le(zero, k), L.f_le(k + one, n_.plus(-1)), L.f_le(lx0, q.lin), L.f_le(q.lin, lx1))
+                return [(g, f'line {node.lineno}: the line through nodes {k!r} and {k!r}+1 is used only when they bracket the query')]
+        return [(L.F_, f'line {node.lineno}: the appended value {val!r} is neither an end ordinate nor the straight line '
+                       f'through two adjacent nodes')]
+
+    def inputs():
+        for n in (1, 2, 3, 4, 5, 6):
+            xp = [Fraction(i) for i in range(n)]
+            yp = [A.sym(f'{ypn}[{i}]') for i in range(n)]
+            qs = [Fraction(-1)] + [Fraction(i, 2) for i in range(0, 2 * n - 1)] + [Fraction(n)]
+            for q in qs:
+                yield {xpn: xp, ypn: yp, xname: [q]}
+            if n <= 4:
+                for q1 in qs:
+                    for q2 in qs:
+                        yield {xpn: xp, ypn: yp, xname: [q1, q2]}
+
+    def expected(xp, yp, q):
+        if q <= xp[0]:
+            return yp[0]
+        if q >= xp[-1]:
+            return yp[-1]
+        for k in range(len(xp) - 1):
+            if xp[k] <= q <= xp[k + 1]:
+                return yp[k] + (yp[k + 1] - yp[k]) * A.RF.const((q - xp[k]) / (xp[k + 1] - xp[k]))
+        raise AssertionError
+
+    def oracle(inp, c, outcome):
+        xp, qs = inp[xpn], inp[xname]
+        yp = [A.sym(f'{ypn}[{i}]') for i in range(len(xp))]
+        where = f'xp = {[str(x) for x in xp]}, x = {[str(q) for q in qs]}'
+        if outcome[0] == 'raise':
+            return f'{where}: {outcome[1]}'
+        vals = [e[1] for e in c.emits if e[0] == res_name]
+        if len(vals) != len(qs):
+            return f'{where}: {len(vals)} value(s) for {len(qs)} query point(s)'
+        for q, v in zip(qs, vals):
+            want = expected(xp, yp, q)
+            v = v if isinstance(v, A.RF) else A.RF.const(Fraction(v))
+            if not v.equals(want):
+                return f'{where}: at x = {q} the value is {v!r}, the clamped piecewise-linear value is {want!r}'
+        return None
+
     try:
-        tree = ev.exec_block(loop.body, st, Ctx(dm, li, None, 0))
-    except Undecided as exc:
-        rep.undecided(rule, li.where, 'linear_interpolation', f'shape not readable: {exc}')
+        res_ = L.analyse_search(li.node, roles, goal, inputs(), oracle)
+    except L.Unsupported as exc:
+        rep.undecided(rule, li.where, 'linear_interpolation', f'outside the fragment engine E reads: {exc}')
         return
-    xi = A.sym('xi')
-    lo_clamp = hi_clamp = False
-    problems = []
-    for path, leaf in leaves(tree):
-        items = leaf.state.heap[out.oid]['$items']
-        below = above = None
-        for t, pol in path:
-            if t.kind == 'nonneg' and t.rf.equals(A.sym('xp[0]') - xi):
-                below = pol
-            elif t.kind == 'nonneg' and t.rf.equals(xi - A.sym('xp[-1]')):
-                above = pol
-            elif t.kind == 'pos' and t.rf.equals(xi - A.sym('xp[0]')):
-                below = not pol
-            elif t.kind == 'pos' and t.rf.equals(A.sym('xp[-1]') - xi):
-                above = not pol
-        if below:
-            lo_clamp = True
-            if not (len(items) == 1 and isinstance(items[0], SymObj) and items[0].path == 'yp[0]'):
-                problems.append(f'below the first point the value is {items!r}, expected yp[0]')
-        elif above:
-            hi_clamp = True
-            if not (len(items) == 1 and isinstance(items[0], SymObj) and items[0].path == 'yp[-1]'):
-                problems.append(f'above the last point the value is {items!r}, expected yp[-1]')
-    if not lo_clamp:
-        problems.append('no clamp at the first point (x <= xp[0])')
-    if not hi_clamp:
-        problems.append('no clamp at the last point (x >= xp[-1])')
-    # interpolant inside the search loop: the appended value under the bracketing guard
-    inner = [n for n in ast.walk(loop) if isinstance(n, ast.While)]
-    ok_line = False
-    for w in inner:
-        for iff in [n for n in ast.walk(w) if isinstance(n, ast.If)]:
-            apps = [c for c in ast.walk(iff) if isinstance(c, ast.Call) and isinstance(c.func, ast.Attribute) and c.func.attr == 'append']
-            if not apps:
-                continue
-            st2 = State()
-            out2 = ev.new_list(st2, [])
-            st2.env.update({loop.target.id: S('xi'), xpn: SymObj('xp'), ypn: SymObj('yp'), res_names[0]: out2, 'mid': S('m')})
-            for n in ast.walk(iff):
-                if isinstance(n, ast.Name) and n.id not in st2.env and isinstance(n.ctx, ast.Load) and n.id not in ('len',):
-                    st2.env[n.id] = S('m') if n.id in {x.id for x in ast.walk(iff.test) if isinstance(x, ast.Name)} - {loop.target.id, xpn, ypn} else S(f'${n.id}')
-            try:
-                gv = ev.eval(iff.test, st2, Ctx(dm, li, None, 0))
-                t2 = ev.exec_block([s_ for s_ in iff.body if not isinstance(s_, ast.Break)], st2, Ctx(dm, li, None, 0))
-            except Undecided:
-                continue
-            its = t2.state.heap[out2.oid]['$items'] if isinstance(t2, Leaf) else []
-            if len(its) != 1:
-                continue
-            try:
-                val = ev.scalar(its[0])
-            except Undecided:
-                continue
-            m = A.sym('m')
-            x0, x1 = A.sym(f'xp[{m!r}]'), A.sym(f'xp[{(m + 1)!r}]')
-            y0, y1 = A.sym(f'yp[{m!r}]'), A.sym(f'yp[{(m + 1)!r}]')
-            line = y0 + (y1 - y0) / (x1 - x0) * (xi - x0)
-            # the guard must bracket: xp[m] <= xi < xp[m+1]
-            tests = []
-            for _pp, lf in cond_leaves(gv):
-                if isinstance(lf, Const) and lf.value is True:
-                    tests = _pp
-            br_lo = any(t.kind == 'nonneg' and t.rf.equals(xi - x0) and pol for t, pol in tests)
-            br_hi = any((t.kind == 'pos' and t.rf.equals(x1 - xi) and pol) or (t.kind == 'nonneg' and t.rf.equals(x1 - xi) and pol)
-                        for t, pol in tests)
-            if val.equals(line) and br_lo and br_hi:
-                ok_line = True
-            elif br_lo or br_hi:
-                problems.append(f'inside the bracket [xp[m], xp[m+1]) the value is {val!r}, not the straight line through the '
-                                f'two bracketing points')
-    if problems:
-        rep.fail(rule, dm.path, li.node.lineno, li.qualname, 'interpolant', '; '.join(sorted(set(problems))[:3]))
-    elif not ok_line:
-        # another search shape (a sweep, bisect, ...): whether it brackets every query is loop correctness: not decided
-        rep.ok(rule, li.where, 'x <= xp[0] -> yp[0]; x >= xp[-1] -> yp[-1]')
-        rep.undecided(rule, li.where, 'interior interpolant', 'no `xp[m] <= x < xp[m+1]`-guarded straight line recognised; the '
-                      'correctness of another search shape is not decided')
-    else:
-        rep.ok(rule, li.where, 'x <= xp[0] -> yp[0]; x >= xp[-1] -> yp[-1]')
-        rep.ok(rule, li.where, 'xp[m] <= x < xp[m+1] -> yp[m] + (yp[m+1]-yp[m])/(xp[m+1]-xp[m]) (x - xp[m])')
+    rep.extra['interpolation_proof'] = {
+        'loops': res_.loop_info, 'invariants': list(res_.invariants.values()), 'prover_calls': res_.prover_calls,
+        'concrete_inputs': res_.concrete_runs, 'concrete_inputs_not_readable': res_.concrete_unknown,
+        'obligations': [{'text': L.pretty(o.text), 'status': o.status} for o in res_.obligations][:40]}
+    value_obs = [o for o in res_.obligations if o.tag != 'index']
+    if not value_obs:
+        rep.fail(rule, dm.path, li.node.lineno, li.qualname, 'interpolant', 'nothing is appended to the result')
+        return
+    unknown = [o for o in res_.obligations if o.status != 'proved']
+    if res_.witnesses:
+        rep.fail(rule, dm.path, li.node.lineno, li.qualname, 'interpolant',
+                 'counterexample: ' + res_.witnesses[0] + (f'; unproved: {L.pretty(unknown[0].text)}' if unknown else ''))
+        return
+    for o in res_.obligations:
+        if o.status == 'proved':
+            rep.ok(rule, f'{dm.path}:{getattr(o.node, "lineno", li.node.lineno)}', L.pretty(o.text))
+        else:
+            rep.undecided(rule, f'{dm.path}:{getattr(o.node, "lineno", li.node.lineno)}', L.pretty(o.text),
+                          'not proved from the inferred invariants and no counterexample in the finite family')
 
 
 def _key_is_mach(call: ast.Call) -> bool:
@@ -343,6 +367,21 @@ def _scaling(prog, ev, mb, dm, table_name, res_name):
 
 
 DMF = 'py_ballisticcalc/drag_model.py'
+_SEARCH = '''            # Binary search to find interval containing xi
+            left, right = 0, len(xp) - 1
+            while left < right:
+                mid = (left + right) // 2
+                if xp[mid] <= xi < xp[mid + 1]:
+                    slope = (yp[mid + 1] - yp[mid]) / (xp[mid + 1] - xp[mid])
+                    y.append(yp[mid] + slope * (xi - xp[mid]))  # Interpolated value for xi
+                    break
+                if xi < xp[mid]:
+                    right = mid
+                else:
+                    left = mid + 1
+            if left == right:
+                y.append(yp[left])
+'''
 VARIANTS = [
     Variant('points-passed-through', 'break', [(DMF, "DragDataPoint(point.Mach, point.CD) if isinstance(point, DragDataPoint)", "point if isinstance(point, DragDataPoint)")], 'C14.R1', 'the defect repaired in /repo: caller\'s data points scaled in place', 'pass'),
     Variant('bc-points-sorted-in-place', 'break', [(DMF, 'bc_points = sorted(bc_points, key=lambda p: p.Mach)', 'bc_points.sort(key=lambda p: p.Mach)')], 'C14.R1', 'the defect repaired in /repo', 'pass'),
@@ -353,6 +392,13 @@ VARIANTS = [
     Variant('dragmodel-sorts-callers-table', 'break', [(DMF, '        self.drag_table = make_data_points(drag_table)\n', '        drag_table.sort(key=lambda p: p["Mach"] if isinstance(p, dict) else p.Mach)\n        self.drag_table = make_data_points(drag_table)\n')], 'C14.R1'),
     Variant('interp-slope-from-wrong-pair', 'break', [(DMF, 'slope = (yp[mid + 1] - yp[mid]) / (xp[mid + 1] - xp[mid])', 'slope = (yp[mid + 1] - yp[mid]) / (xp[mid + 1] - xp[mid - 1])')], 'C14.R3', 'wrong only between points'),
     Variant('interp-upper-clamp-to-first', 'break', [(DMF, '        elif xi >= xp[-1]:\n            y.append(yp[-1])', '        elif xi >= xp[-1]:\n            y.append(yp[0])')], 'C14.R3', 'wrong only above the fastest BC point'),
-    Variant('interp-no-lower-clamp', 'break', [(DMF, '        if xi <= xp[0]:\n            y.append(yp[0])\n        elif xi >= xp[-1]:', '        if xi >= xp[-1]:')], 'C14.R3'),
+    Variant('twin-interp-no-lower-clamp', 'twin', [(DMF, '        if xi <= xp[0]:\n            y.append(yp[0])\n        elif xi >= xp[-1]:', '        if xi >= xp[-1]:')], None, 'the search itself ends at yp[0] for a query at or below the first abscissa (proved); an earlier pattern rule reported this edit'),
+    Variant('interp-right-mid-minus-1', 'break', [(DMF, '                    right = mid\n', '                    right = mid - 1\n')], 'C14.R3', 'a collapsed interval falls through to the lower point\'s ordinate'),
+    Variant('interp-left-not-advanced', 'twin', [(DMF, '                    left = mid + 1\n', '                    left = mid\n')], None, 'still brackets and terminates (proved)'),
+    Variant('interp-strict-bracket', 'break', [(DMF, '                if xp[mid] <= xi < xp[mid + 1]:', '                if xp[mid] < xi < xp[mid + 1]:')], 'C14.R3', 'a query exactly at an interior node never matches'),
+    Variant('interp-sweep-if', 'break', [(DMF, '    y = []\n\n    for xi in x:', '    y = []\n    seg = 0\n\n    for xi in x:'), (DMF, _SEARCH, '            if xi >= xp[seg + 1]:\n                seg += 1\n            slope = (yp[seg + 1] - yp[seg]) / (xp[seg + 1] - xp[seg])\n            y.append(yp[seg] + slope * (xi - xp[seg]))\n')], 'C14.R3', 'seeded change C14/2'),
+    Variant('twin-interp-sweep-while', 'twin', [(DMF, _SEARCH, '            seg = 0\n            while xi >= xp[seg + 1]:\n                seg += 1\n            slope = (yp[seg + 1] - yp[seg]) / (xp[seg + 1] - xp[seg])\n            y.append(yp[seg] + slope * (xi - xp[seg]))\n')], None),
+    Variant('twin-interp-bisect', 'twin', [(DMF, _SEARCH, '            k = bisect_right(xp, xi) - 1\n            slope = (yp[k + 1] - yp[k]) / (xp[k + 1] - xp[k])\n            y.append(yp[k] + slope * (xi - xp[k]))\n'), (DMF, 'import math\n', 'import math\nfrom bisect import bisect_right\n')], None),
+    Variant('interp-bisect-left', 'break', [(DMF, _SEARCH, '            k = bisect_left(xp, xi)\n            slope = (yp[k + 1] - yp[k]) / (xp[k + 1] - xp[k])\n            y.append(yp[k] + slope * (xi - xp[k]))\n'), (DMF, 'import math\n', 'import math\nfrom bisect import bisect_left\n')], 'C14.R3'),
     Variant('twin-sorted-new-local', 'twin', [(DMF, '    bc_points = sorted(bc_points, key=lambda p: p.Mach)  # Make sure bc_points are sorted for linear interpolation\n    bc_interp = linear_interpolation([x.Mach for x in drag_table],\n                                     [x.Mach for x in bc_points],\n                                     [x.BC / bc for x in bc_points])', '    pts = sorted(bc_points, key=lambda p: p.Mach)\n    bc_interp = linear_interpolation([x.Mach for x in drag_table],\n                                     [x.Mach for x in pts],\n                                     [x.BC / bc for x in pts])')], None),
 ]
